@@ -329,6 +329,8 @@ func propC10(o *out, r *rng, thorough bool) {
 	}
 	// outside the class: compared for correspondence only (errors, time under OR, !=, calls)
 	for _, w := range []string{"time != 5", "time > 1 OR host = 'a'", "host", "time > 'x'", "time > 9223372036854775807", "time < -9223372036854775807",
+		"time > '2262-04-11T23:47:16.854775806Z'", "time >= '2262-04-11T23:47:16.854775806Z'", "time <= '2262-04-11T23:47:16.854775806Z'", "time = '2262-04-11T23:47:16.854775806Z'", "'2262-04-11T23:47:16.854775806Z' >= time",
+		"time > '2262-04-11T23:47:16.854775805Z'", "time < '2262-04-11T23:47:16.854775807Z'", "time >= '1677-09-21T00:12:43.145224194Z'", "time = '1677-09-21T00:12:43.145224194Z'", "time > now() + 8000d",
 		"time > '2262-04-12T00:00:00Z'", "time > '1677-09-21T00:12:43.145224191Z'", "time > '1677-09-21T00:12:43.145224193Z'", "time > now()", "time > f()", "time > 1.5", "time > 1e3",
 		"time = 1 AND time = 2", "time > host", "(time > 5)", "((host = 'a'))", "true", "false", "true AND true", "host = 'a' AND true", "time > now() - 1h - 1h", "time > 1h + 1h",
 		"time > '2000-01-01' + 1d", "time >= '2000-01-01' AND time < '2000-01-01' + 1w", "now() > time", "5 < time", "'2000-01-01' <= time", "time =~ /a/", "value + 1 > 2", "time + 1 > 2",
